@@ -217,7 +217,11 @@ impl Privilege {
             LoggerLevel::Trace,
             format!("Start to match privilege '{}'", self.name),
         );
-        if request_url.path().to_lowercase().starts_with(&self.path) {
+        if request_url
+            .path()
+            .to_lowercase()
+            .starts_with(&self.path.to_lowercase())
+        {
             logger.write(
                 LoggerLevel::Trace,
                 format!("Matched privilege path '{}'", self.path),
